@@ -149,6 +149,14 @@ func (h *harness) FSOp(d *simfs.Disk, op simfs.Op, path string, size int, index 
 		if !op.Mutating() {
 			return nil, 0
 		}
+		if h.kind.isPebble() && goid() != h.mainG &&
+			!(strings.HasSuffix(path, ".log") && (op == simfs.OpWrite || op == simfs.OpSync)) {
+			// Pebble's cleanup goroutines run concurrently with the caller;
+			// counting their operations would make the crash point depend on
+			// the Go scheduler. Its WAL writer works in lock step with the
+			// committing caller and is counted.
+			return nil, 0
+		}
 		h.elig++
 		h.totalElig++
 		if h.hit() {
